@@ -129,7 +129,7 @@ func Check17(c Case17, r *core.Rec) {
 			r.Vacuous()
 			return
 		}
-		x = c.Web.Render(c.Spelling, 3, true, true)
+		x = c.Web.Render(c.Spelling, 16, true, true)
 	}
 	r.Class("profile:" + c.Profile.Name)
 	u1, err := p.Parse(x)
@@ -254,7 +254,7 @@ func Gen17(t *rapid.T) Case17 {
 
 // inputs where canonicalization steps interact with the URL's structure
 var c17Hostile = []string{"data:x ?", "a:b ?#", "a:b  ?&&", "a:b ?&#f", "foo:o  ?=", "a:b #", "a:b  ?q# ", "foo://u:p@h:1/?&", "http://h/?&&", "http://h/?#", "http://h/?=", "http://u@h:80/?b&a#",
-	"foo://u@%2f", "foo://%2f:80", "foo://h%3a1/", "foo://u:p@%5b/", "http://h/%252e%252e/x", "http://h/a/%2E%2e/b", "http://h/?%2B", "http://h/?a=%26&b", "http://h/?%25%36%31", "foo:/.//p", "foo:/p/..//x", "http://h//..//x?#",
+	"http://h/%4%31", "http://h/%%34%31", "http://h/#x%6%31", "http://h/?%4%31=%%36%31", "http://h/%25252525252525252525252541", "http://h/?a=%2525252525252525252525252541", "foo://u@%2f", "foo://%2f:80", "foo://h%3a1/", "foo://u:p@%5b/", "http://h/%252e%252e/x", "http://h/a/%2E%2e/b", "http://h/?%2B", "http://h/?a=%26&b", "http://h/?%25%36%31", "foo:/.//p", "foo:/p/..//x", "http://h//..//x?#",
 	"file:///C|/../x", "file://localhost/C:/x#", "ws://h:80/?%20", "http://h:0080/", "HTTP://H/?B=1&A=2&a=3", "x:y?%zz&%", "foo://h/?a b&c\td", "example.com:80/p?b&a", "u:p@h/?q", "//h/?b&a"}
 
 var P17 = core.Register(core.Prop[Case17]{
